@@ -317,6 +317,9 @@ func checkC05(w *World, r *Report) {
 	guardRule(w, r, e, "C05.env-lock", w.guardRows()[2])
 	r.floor("C05.env-lock", "accesses to Env.data and calls of lock-required methods", r.count("C05.env-lock"), 10)
 	typedNilResultRule(w, r, e, "C05.typed-nil")
+	// a hook handed to the scanner runs inside READ, outside the audited closure: the reader hands it none
+	scannerConfigRule(w, r, "C05.token-rules")
+	readerReentryRule(w, r, "C05.single-text")
 	a := newAudit(w, e, r, "C05.site")
 	a.cmp = true
 	a.exempt = exemptionsC05
